@@ -168,6 +168,8 @@ pub struct Obs {
     pub ops: Vec<OpObs>,
     /// adversary moves the harness could not apply (not applicable to this scheme/shape)
     pub skipped_adv: Vec<String>,
+    /// C18: (step name, sha256 of the serialized output) when PCV_DIGESTS is set
+    pub digests: Vec<(String, String)>,
     /// C12: failed serialization laws (empty = all round trips fine)
     pub ser_errors: Vec<String>,
     /// C12: number of round trips / truncated prefixes tried
